@@ -971,99 +971,157 @@ func ruleTLSGateBeforeLoop(c *Ctx, rid string) {
 			continue
 		}
 		var auth *ssa.Call
+		var authHelper *ssa.Call // a call of a helper whose nil error means "authenticated"
 		allInstrs(fn, func(ins ssa.Instruction) {
 			if call, ok := isCall(ins, nAuthenticate); ok {
 				auth = call
 			}
 		})
 		if auth == nil {
+			allInstrs(fn, func(ins ssa.Instruction) {
+				call, ok := ins.(*ssa.Call)
+				if !ok || authHelper != nil {
+					return
+				}
+				if callee := staticCallee(call.Common()); callee != nil && inFramework(callee) && nilMeansAuthenticated(callee) {
+					authHelper = call
+				}
+			})
+		}
+		if auth == nil && authHelper == nil {
 			c.bad(rid, key+"/authenticate", c.P.pos(fn.Pos()), "TLS connections are never authenticated before the request loop")
 			continue
 		}
-		var errPhi *ssa.Phi
-		allInstrs(fn, func(ins ssa.Instruction) {
-			if phi, ok := ins.(*ssa.Phi); ok {
-				for _, e := range phi.Edges {
-					if ex, ok := e.(*ssa.Extract); ok && ex.Tuple == ssa.Value(auth) && ex.Index == 1 {
-						errPhi = phi
+		if auth == nil {
+			// helper form: the loop is entered on a TLS connection only across nil(helper error)
+			type st2 struct{ Need, OK int8 }
+			a2 := &Auto[st2]{Fn: fn, Init: st2{Need: 1},
+				Step: func(s st2, ins ssa.Instruction, fail func(string)) []st2 {
+					if ins == ssa.Instruction(cl.Next) && s.Need == 1 && s.OK == 0 {
+						fail("the request loop is reachable on a TLS connection without the authentication helper having returned nil")
 					}
-				}
-			}
-		})
-		type st struct {
-			Need, OK, ErrNil int8
-			PhiIn            int8
-		}
-		a := &Auto[st]{Fn: fn, Init: st{Need: 1, PhiIn: -1},
-			Step: func(s st, ins ssa.Instruction, fail func(string)) []st {
-				if ins == ssa.Instruction(cl.Next) && s.Need == 1 && !(s.OK == 1 && s.ErrNil == 1) {
-					fail(fmt.Sprintf("the request loop is reachable on a TLS connection without Authenticate having returned ok==true (%v) and err==nil (%v)", s.OK == 1, s.ErrNil == 1))
-				}
-				return []st{s}
-			},
-			Edge: func(s st, b *ssa.BasicBlock, idx int) (st, bool) {
-				succ := b.Succs[idx]
-				for _, at := range edgeOnly(b, idx) {
-					switch at.Kind {
-					case "nil":
-						if at.X == ssa.Value(tlsPar) {
-							if at.Pos {
-								s.Need = 0
-							} else {
-								s.Need = 1
+					return []st2{s}
+				},
+				Edge: func(s st2, b *ssa.BasicBlock, idx int) (st2, bool) {
+					for _, at := range edgeOnly(b, idx) {
+						if at.Kind == "nil" {
+							if at.X == ssa.Value(tlsPar) {
+								if at.Pos {
+									s.Need = 0
+								} else {
+									s.Need = 1
+								}
+							}
+							if at.X == ssa.Value(authHelper) && at.Pos {
+								s.OK = 1
 							}
 						}
-						if ex, ok := at.X.(*ssa.Extract); ok && ex.Tuple == ssa.Value(auth) && ex.Index == 1 && at.Pos {
-							s.ErrNil = 1
+					}
+					return s, true
+				}}
+			res2 := a2.Run()
+			if len(res2.Errs) == 0 {
+				c.ok(rid, key+"/authenticated-before-loop", c.P.instrPos(authHelper), "every path into the request loop with a TLS state crossed the nil result of "+fnName(staticCallee(authHelper.Common()))+", which returns nil only after Authenticate ok && err == nil")
+			}
+			for i, e := range res2.Errs {
+				c.bad(rid, fmt.Sprintf("%s/authenticated-before-loop#%d", key, i), c.P.instrPos(e.Ins), e.Msg, e.witness(c.P)...)
+			}
+			servedOK := false
+			for _, a := range authHelper.Common().Args {
+				if call, ok := strip(a).(*ssa.Call); ok && c.P.isConnConstructorCall(call.Common()) {
+					servedOK = true
+				}
+			}
+			c.check(servedOK, rid, key+"/authenticated-conn", c.P.instrPos(authHelper), "the helper is given the connection object constructed for this socket", "the authentication helper is not called on this connection's object")
+		}
+		if auth != nil {
+			func() {
+				var errPhi *ssa.Phi
+				allInstrs(fn, func(ins ssa.Instruction) {
+					if phi, ok := ins.(*ssa.Phi); ok {
+						for _, e := range phi.Edges {
+							if ex, ok := e.(*ssa.Extract); ok && ex.Tuple == ssa.Value(auth) && ex.Index == 1 {
+								errPhi = phi
+							}
 						}
-						if errPhi != nil && at.X == ssa.Value(errPhi) && at.Pos {
-							if s.PhiIn >= 0 && int(s.PhiIn) < len(errPhi.Edges) {
-								e := errPhi.Edges[s.PhiIn]
-								if definitelyNonNil(e) {
-									return s, false // infeasible
+					}
+				})
+				type st struct {
+					Need, OK, ErrNil int8
+					PhiIn            int8
+				}
+				a := &Auto[st]{Fn: fn, Init: st{Need: 1, PhiIn: -1},
+					Step: func(s st, ins ssa.Instruction, fail func(string)) []st {
+						if ins == ssa.Instruction(cl.Next) && s.Need == 1 && !(s.OK == 1 && s.ErrNil == 1) {
+							fail(fmt.Sprintf("the request loop is reachable on a TLS connection without Authenticate having returned ok==true (%v) and err==nil (%v)", s.OK == 1, s.ErrNil == 1))
+						}
+						return []st{s}
+					},
+					Edge: func(s st, b *ssa.BasicBlock, idx int) (st, bool) {
+						succ := b.Succs[idx]
+						for _, at := range edgeOnly(b, idx) {
+							switch at.Kind {
+							case "nil":
+								if at.X == ssa.Value(tlsPar) {
+									if at.Pos {
+										s.Need = 0
+									} else {
+										s.Need = 1
+									}
 								}
-								if ex, ok := e.(*ssa.Extract); ok && ex.Tuple == ssa.Value(auth) && ex.Index == 1 {
+								if ex, ok := at.X.(*ssa.Extract); ok && ex.Tuple == ssa.Value(auth) && ex.Index == 1 && at.Pos {
 									s.ErrNil = 1
 								}
+								if errPhi != nil && at.X == ssa.Value(errPhi) && at.Pos {
+									if s.PhiIn >= 0 && int(s.PhiIn) < len(errPhi.Edges) {
+										e := errPhi.Edges[s.PhiIn]
+										if definitelyNonNil(e) {
+											return s, false // infeasible
+										}
+										if ex, ok := e.(*ssa.Extract); ok && ex.Tuple == ssa.Value(auth) && ex.Index == 1 {
+											s.ErrNil = 1
+										}
+									}
+								}
+							case "val":
+								if ex, ok := at.X.(*ssa.Extract); ok && ex.Tuple == ssa.Value(auth) && ex.Index == 0 {
+									if at.Pos {
+										s.OK = 1
+									} else {
+										s.OK = 0
+									}
+								}
 							}
 						}
-					case "val":
-						if ex, ok := at.X.(*ssa.Extract); ok && ex.Tuple == ssa.Value(auth) && ex.Index == 0 {
-							if at.Pos {
-								s.OK = 1
-							} else {
-								s.OK = 0
+						if errPhi != nil && succ == errPhi.Block() {
+							for i, p := range succ.Preds {
+								if p == b {
+									s.PhiIn = int8(i)
+								}
 							}
+						}
+						return s, true
+					}}
+				res := a.Run()
+				if len(res.Errs) == 0 {
+					c.ok(rid, key+"/authenticated-before-loop", c.P.instrPos(auth), "every path into the request loop with a TLS state crossed Authenticate ok && err == nil")
+				}
+				for i, e := range res.Errs {
+					c.bad(rid, fmt.Sprintf("%s/authenticated-before-loop#%d", key, i), c.P.instrPos(e.Ins), e.Msg, e.witness(c.P)...)
+				}
+				// the connection authenticated is the one served
+				servedConn := strip(auth.Common().Args[1])
+				isOwn := false
+				if call, ok := servedConn.(*ssa.Call); ok && c.P.isConnConstructorCall(call.Common()) {
+					for _, a2 := range call.Common().Args {
+						if strip(a2) == ssa.Value(tlsPar) {
+							isOwn = true
 						}
 					}
 				}
-				if errPhi != nil && succ == errPhi.Block() {
-					for i, p := range succ.Preds {
-						if p == b {
-							s.PhiIn = int8(i)
-						}
-					}
-				}
-				return s, true
-			}}
-		res := a.Run()
-		if len(res.Errs) == 0 {
-			c.ok(rid, key+"/authenticated-before-loop", c.P.instrPos(auth), "every path into the request loop with a TLS state crossed Authenticate ok && err == nil")
+				c.check(isOwn, rid, key+"/authenticated-conn", c.P.instrPos(auth), "Authenticate is given the connection object carrying this TLS state", "Authenticate is not called on the connection object that carries this connection's TLS state")
+			}()
 		}
-		for i, e := range res.Errs {
-			c.bad(rid, fmt.Sprintf("%s/authenticated-before-loop#%d", key, i), c.P.instrPos(e.Ins), e.Msg, e.witness(c.P)...)
-		}
-		// the connection authenticated is the one served
-		servedConn := strip(auth.Common().Args[1])
-		isOwn := false
-		if call, ok := servedConn.(*ssa.Call); ok && c.P.isConnConstructorCall(call.Common()) {
-			for _, a2 := range call.Common().Args {
-				if strip(a2) == ssa.Value(tlsPar) {
-					isOwn = true
-				}
-			}
-		}
-		c.check(isOwn, rid, key+"/authenticated-conn", c.P.instrPos(auth), "Authenticate is given the connection object carrying this TLS state", "Authenticate is not called on the connection object that carries this connection's TLS state")
 		// (i) callers passing a non-nil TLS state
 		for i, site := range c.P.staticCallSites(fn) {
 			if !inFramework(site.Parent()) {
@@ -1249,4 +1307,59 @@ func ruleOwnListenerOnly(c *Ctx, rid string) {
 	}
 	c.count("listener-field-stores", nst)
 	c.floor("listener-field-stores", 3)
+}
+
+// nilMeansAuthenticated: h takes a connection, calls AuthManager.Authenticate on it, and returns
+// a nil error only on paths where that call returned ok == true and err == nil.
+func nilMeansAuthenticated(h *ssa.Function) bool {
+	if h.Blocks == nil {
+		return false
+	}
+	res := h.Signature.Results()
+	if res.Len() != 1 || !isErrorType(res.At(0).Type()) {
+		return false
+	}
+	var auth *ssa.Call
+	allInstrs(h, func(ins ssa.Instruction) {
+		if call, ok := isCall(ins, nAuthenticate); ok {
+			auth = call
+		}
+	})
+	if auth == nil {
+		return false
+	}
+	if _, isPar := strip(auth.Common().Args[1]).(*ssa.Parameter); !isPar {
+		return false
+	}
+	any := false
+	for _, r := range returnsOf(h) {
+		v := retOperand(r, 0)
+		mayNil := isNilConst(v)
+		if !mayNil {
+			// a returned error value: may be nil unless known non-nil
+			if definitelyNonNil(strip(v)) || errNonNilAt(r, 0) {
+				continue
+			}
+			// returning Authenticate's own error under err != nil is an error path
+			mayNil = true
+		}
+		any = true
+		okTrue, errNil := false, false
+		for _, at := range closeFacts(factsAt(r.Block())) {
+			ex, isEx := at.X.(*ssa.Extract)
+			if !isEx || ex.Tuple != ssa.Value(auth) {
+				continue
+			}
+			if at.Kind == "val" && at.Pos && ex.Index == 0 {
+				okTrue = true
+			}
+			if at.Kind == "nil" && at.Pos && ex.Index == 1 {
+				errNil = true
+			}
+		}
+		if !okTrue || !errNil {
+			return false
+		}
+	}
+	return any
 }
